@@ -7,8 +7,11 @@
     releaser, simulation order, the time grid, every frequency grid and the np.arange of the ticks of
     continuous release, then — in both release modes — the transformed set-up is
     well-formed when the original is, and its run — compiled by the component MACHINES from the transformed
-    files and tables — holds the same particles with the same values in every record. *)
-From Coq Require Import ZArith QArith List Bool Lia.
+    files and tables — holds the same particles with the same values in every record.  The advection scheme
+    (EF / RK2 / RK4) is carried over unchanged; the time maps act on the step axis as the identity, so the
+    specification's flow agrees at every rational point n + f ([sp_uf_tr]), and the value map keeps the sizes of
+    the velocities ([P_gabs]), hence [no_clip]. *)
+From Coq Require Import ZArith QArith Qabs List Bool Lia.
 From Ladim Require Import Base.Num Model.Time Model.ForcingTime Model.Release Model.Sim Model.Setup.
 From Ladim Require Import Proofs.SimProofs Proofs.SimRelProofs Proofs.ForcingTimeProofs Proofs.ReleaseProofs
   Proofs.SymmetryProofs Proofs.MirrorForcingProofs Proofs.MirrorReleaseProofs Proofs.SetupProofs.
@@ -55,13 +58,14 @@ Section Transform.
   Hypothesis P_sign : forall v w, (w == g v)%Q ->
     ((if rev t' then - w else w) == (if rev t then - v else v))%Q.
   Hypothesis P_g0 : g 0%Q = 0%Q.
+  Hypothesis P_gabs : forall v, (Qabs (g v) == Qabs v)%Q.
 
   Definition tr_rec (r : record) : record := let '(x, uv, sc) := r in (phi x, g uv, sc).
   Definition tr_row (r : row) : row := {| rt := phi (rt r); rmult := rmult r; rvals := rvals r |}.
   Definition tr_setup (s : setup) : setup :=
     {| s_tk := t'; s_files := map (map tr_rec) (s_files s); s_tab := map tr_row (s_tab s);
        s_cont := s_cont s; s_period := s_period s; s_dtdx := s_dtdx s; s_lo := s_lo s; s_hi := s_hi s;
-       s_life := s_life s; s_cfac := s_cfac s; s_land := s_land s |}.
+       s_life := s_life s; s_cfac := s_cfac s; s_land := s_land s; s_adv := s_adv s |}.
 
   (** the simulated window is kept *)
   Lemma P_win x : in_window t' (phi x) = in_window t x.
@@ -285,19 +289,29 @@ Section Transform.
     unfold ForcingTime.on_grid. rewrite layout_times_tr, forallb_map'. apply forallb_ext'. intro x. apply P_grid.
   Qed.
 
+  (** the velocities keep their sizes: the scheme's stage positions stay unclipped *)
+  Lemma disp_le_tr s b : disp_le (tr_setup s) b = disp_le s b.
+  Proof.
+    unfold disp_le. cbn [tr_setup s_files s_cfac s_dtdx]. rewrite concat_map_map, forallb_map'.
+    apply forallb_ext'. intros [[x uv] sc]. cbn [tr_rec fst snd]. apply forallb_ext'. intro cf.
+    rewrite (P_gabs uv). reflexivity.
+  Qed.
+  Lemma no_clip_tr s : no_clip (tr_setup s) = no_clip s.
+  Proof. unfold no_clip. rewrite !disp_le_tr. reflexivity. Qed.
+
   Lemma setup_ok_tr s : s_tk s = t -> setup_ok (tr_setup s) = setup_ok s.
   Proof.
-    intro E. unfold setup_ok. rewrite (started_tr s E), (tab_ok_tr s E).
+    intro E. unfold setup_ok. rewrite (started_tr s E), (tab_ok_tr s E), no_clip_tr.
     unfold s_raw, s_nsteps. cbn [tr_setup s_tk s_files s_tab]. rewrite E.
     rewrite scan_tr, on_grid_tr, layout_times_tr, nodupb_tr, P_dt, P_n. reflexivity.
   Qed.
 
   (** ** the specification environments agree *)
-  Lemma sp_u_tr s n : s_tk s = t -> (sp_u s n == sp_u (tr_setup s) n)%Q.
+  Lemma sp_uf_tr s n f : s_tk s = t -> (sp_uf s n f == sp_uf (tr_setup s) n f)%Q.
   Proof.
-    intro E. unfold sp_u, s_raw, s_disk. cbn [tr_setup s_tk s_files]. rewrite E, scan_tr.
+    intro E. unfold sp_uf, s_raw, s_disk. cbn [tr_setup s_tk s_files]. rewrite E, scan_tr.
     rewrite (upts_tr (scan t (s_files s)) (disk_of (s_files s)) _ (disk_tr (s_files s))).
-    pose proof (P_lerp (upts (scan t (s_files s)) (disk_of (s_files s))) (inject_Z n)) as H.
+    pose proof (P_lerp (upts (scan t (s_files s)) (disk_of (s_files s))) (inject_Z n + f)%Q) as H.
     destruct (lerp_spec (upts _ _) _) as [v|]; destruct (lerp_spec (map _ _) _) as [w|]; cbn in H; try contradiction.
     - symmetry. apply P_sign. exact H.
     - reflexivity.
@@ -323,7 +337,7 @@ Section Transform.
     apply runs_alike; try assumption.
     - unfold phys_eq. cbn. repeat split; reflexivity.
     - unfold s_nsteps. cbn [tr_setup s_tk]. rewrite E. exact P_n.
-    - intros n _. apply sp_u_tr. exact E.
+    - intros n f _. apply sp_uf_tr. exact E.
     - intros n _. rewrite (sp_temp_tr s n E). reflexivity.
     - intros n _. symmetry. apply sp_release_tr. exact E.
   Qed.
@@ -402,7 +416,7 @@ Proof.
            (before_stop_shift (s_tk s) d) (from_start_shift (s_tk s) d) (after_start_shift (s_tk s) d)
            (sim_le_shift (s_tk s) d) (grid_shift (s_tk s) d) (mod_shift d) (arange_shift (s_tk s) d)
            (shift_inj d) eq_refl (nsteps_shift (s_tk s) d)
-           lerp_id (sign_shift (s_tk s) d) eq_refl
+           lerp_id (sign_shift (s_tk s) d) eq_refl (fun v => Qeq_refl (Qabs v))
            s eq_refl Hok).
 Qed.
 
@@ -470,6 +484,6 @@ Proof.
            (before_stop_mirror (s_tk s)) (from_start_mirror (s_tk s)) (after_start_mirror (s_tk s))
            (sim_le_mirror (s_tk s)) (grid_mirror (s_tk s)) (mod_mirror (s_tk s)) (arange_mirror (s_tk s))
            (mirror_inj (s_tk s)) eq_refl (nsteps_mirror (s_tk s))
-           lerp_spec_neg (sign_mirror (s_tk s)) eq_refl
+           lerp_spec_neg (sign_mirror (s_tk s)) eq_refl Qabs_opp
            s eq_refl Hok).
 Qed.
